@@ -399,7 +399,7 @@ def rand_c02(seed, tier, cases=None):
                     b[i] ^= 1 << rng.randrange(8)
             cl = "rand_bitflip"
         prev = list(rng.choice(base)) if base and rng.random() < 0.8 else [rng.randint(0, 255) for _ in range(rng.randint(0, 40))]
-        out.append(dict(fam="C02", kind="bytes", bytes=b, prev=prev, **{"class": cl}))
+        out.append(dict(fam="C02", kind="bytes", bytes=b, prev=prev if k % 5 else [], prefill=(k % 3 == 0), **{"class": cl}))
     # longer receiver histories: accepted and REJECTED inputs before the judged one (a rejected decode may leave
     # the receiver half-written): whole images, images cut inside the CSRC list / extension block / anywhere, X bit toggled
     for k in range(1500 if tier == "quick" else 30000 * TH):
@@ -421,7 +421,7 @@ def rand_c02(seed, tier, cases=None):
         hist = [list(rng.choice(base)) if rng.random() < 0.5 else damaged() for _ in range(rng.randint(1, 3))]
         prev = damaged() if rng.random() < 0.6 else list(rng.choice(base))
         b = list(rng.choice(base)) if rng.random() < 0.8 else damaged()
-        out.append(dict(fam="C02", kind="bytes", bytes=b, prev=prev, hist=hist, **{"class": "rand_history"}))
+        out.append(dict(fam="C02", kind="bytes", bytes=b, prev=prev, hist=hist, prefill=(k % 4 == 0), **{"class": "rand_history"}))
     return out
 
 
@@ -480,7 +480,7 @@ C05_T = {"BigIds": "{0, 1, 2, 14, 15, 16, 255}", "BigLens": "{0, 1, 3, 4, 16, 17
 
 def rand_c05(seed, tier, cases=None):
     rng = random.Random(seed * 7919 + 5)
-    starts = ["fresh", "onebyte", "twobyte", "legacy", "um_onebyte", "um_twobyte", "um_legacy", "um_dup"]
+    starts = ["fresh", "onebyte", "twobyte", "legacy", "um_onebyte", "um_twobyte", "um_legacy", "um_dup", "um_onebyte_plain", "um_twobyte_plain"]
     out = []
     for _ in range(4000 if tier == "quick" else 60000 * TH):
         n = rng.randint(1, 10)
@@ -854,7 +854,7 @@ def rand_c09(seed, tier, cases=None):
             if b and rng.random() < 0.6:
                 b[0] = rng.choice([0x1C, 0x7C, 0x18, 0x78, 0x62, 0x60, 0x64, 0x90, 0x80, 0xFF, 0xAA, 0x10, 0x50, 0x30, 0x00])
             items.append(b)
-        out.append(dict(fam="C09", kind=kind, src="bytes", items=items, probes=True, scribble=True, **{"class": kind + "_rand"}))
+        out.append(dict(fam="C09", kind=kind, src="bytes", items=items, probes=True, scribble=True, prefill=(kind in ("vp8", "vp9", "opus") and rng.random() < 0.4), **{"class": kind + "_rand"}))
     # long runs: 300 payloads into one receiver
     for kind in C09_KINDS:
         items = []
